@@ -41,6 +41,29 @@ CHECKS["C03"] = ("model_checking",
     "and RejectNotIgnore (invalid framing ends the sequence with the matching error).",
     "Trusted: TLC; bodies compared by length + 31-bit digest; case variants of coding names are a free zone.", "4 C03")
 
+CHECKS["C01"] = ("model_checking",
+    "TLA+ ReadHead machine (buffer, reads of k bytes, EOF) model-checked by TLC for split independence and "
+    "termination; real read_http_head run under every partition of short inputs and random partitions of generated "
+    "heads, outcomes validated by TLC against the whole-input oracle",
+    "ReadHead.tla mirrors read_http_head's loop (TryParse / Full / Read(k) / ReadEof); TLC checks on all strings up to "
+    "length 5-6 over a 6-symbol alphabet x all read partitions that the outcome equals a split-free Oracle, that "
+    "nothing past the blank line is consumed, and that every behaviour terminates. The code is bound by running the "
+    "same short inputs under EVERY partition through read_http_head::<N> with the same N, by 3k/100k grammar-derived "
+    "and mutated heads (all 256 byte values, sizes up to 8192+64) under random partitions and EOF offsets, and by a "
+    "sample through a real server over TCP; TLC judges each recorded outcome with Head!RefParse + the oracle.",
+    "Trusted: TLC; the scripted reader; hang = still pending after len+6 polls. Which error is reported for a head "
+    "with two independent defects is free (the oracle carries the set of applicable kinds).", "4 C01")
+CHECKS["C02"] = ("model_checking",
+    "RFC 7230 section 3 request-head grammar transcribed into TLA+ (Head!RefParse) as the reference parser; "
+    "generated and mutated heads parsed by the real Head::try_read / read_http_head and judged by TLC",
+    "Pure-function property: the specification acts as a transcribed oracle (weakest form of the technique, stated in "
+    "DESIGN.md section 1). RefParse classifies each head as must-accept (method, path, query, every field in order "
+    "compared exactly), must-reject (error class compared) or implementation-free (internal consistency only). 6k "
+    "(quick) / 200k (thorough) heads over the full byte range go through the real parser twice (whole buffer and "
+    "fragmented reads).",
+    "Trusted: TLC and the transcription of the ABNF; free zone listed in DESIGN.md section 4 C02 (bare LF, CR next to OWS, "
+    "obs-text, URL-normalised targets).", "4 C02")
+
 NOT_APPLICABLE = {}
 
 
